@@ -7,13 +7,14 @@
    The harness shares nothing between threads: one struct api + one output buffer per thread; the
    threads only meet at the start barrier (no further synchronisation, which would hide races).
 
-   stdin:  "threads <N> reps <R> mode <par|seq>"  then lines "<tid> <api command>", then "end".
+   stdin:  "threads <N> reps <R> mode <par|seq> [alloc <default|arena>]"  then lines "<tid> <api command>", then "end".
    stdout: "T<tid> <result or diagnostic line>" in thread order. */
 #define _GNU_SOURCE
 #include <pthread.h>
 #include <stdio.h>
 #include <stdlib.h>
 #include <string.h>
+#include <sys/mman.h>
 #include "c17_api.h"
 
 #define MAXT 16
@@ -26,11 +27,77 @@ struct th {
   size_t olen, ocap;
   int reps, failed, tid;
   pthread_t pt;
+  struct MIR_code_alloc code_alloc;
 };
 
 static struct th ths[MAXT];
 static pthread_barrier_t start_barrier;
 static int use_barrier;
+
+static void th_out (struct api *a, const char *line);
+
+/* ---- optional arena code allocator (header "alloc arena"): all contexts get their code pages from ONE
+   contiguous arena, so holders of different contexts are neighbours, and every mem_protect / mem_unmap is checked
+   to touch only pages the calling context owns.  A context changing the protection of another context's page is
+   interference even though no data race is visible to TSan.  Owner bytes are relaxed atomics (no extra
+   happens-before edges between the threads); the bump pointer is taken under a mutex only in mem_map. */
+#define ARENA_PAGES 16384
+#define APAGE 4096ul
+static uint8_t *arena;
+static size_t arena_next;
+static unsigned char arena_owner[ARENA_PAGES];
+static pthread_mutex_t arena_lock = PTHREAD_MUTEX_INITIALIZER;
+
+static void *ar_map (size_t len, void *ud) {
+  struct th *t = ud;
+  size_t np = (len + APAGE - 1) / APAGE, first;
+  pthread_mutex_lock (&arena_lock);
+  first = arena_next;
+  arena_next += np;
+  pthread_mutex_unlock (&arena_lock);
+  if (first + np > ARENA_PAGES) return NULL;
+  for (size_t i = 0; i < np; i++) __atomic_store_n (&arena_owner[first + i], (unsigned char) (t->tid + 1), __ATOMIC_RELAXED);
+  return arena + first * APAGE;
+}
+
+static int ar_check (struct th *t, const char *what, void *ptr, size_t len) {
+  size_t lo, hi;
+  if ((uint8_t *) ptr < arena || (uint8_t *) ptr + len > arena + ARENA_PAGES * APAGE || len == 0) {
+    char b[120];
+    sprintf (b, "X FOREIGN-%s outside the arena", what);
+    if (len != 0) th_out (&t->api, b);
+    return len == 0;
+  }
+  lo = (size_t) ((uint8_t *) ptr - arena) / APAGE;
+  hi = (size_t) ((uint8_t *) ptr + len - 1 - arena) / APAGE;
+  for (size_t i = lo; i <= hi; i++) {
+    unsigned o = __atomic_load_n (&arena_owner[i], __ATOMIC_RELAXED);
+    if (o != (unsigned) (t->tid + 1)) {
+      char b[160];
+      sprintf (b, "X FOREIGN-%s context of thread %d touches a code page owned by %s%d", what, t->tid,
+               o == 0 ? "nobody " : "thread ", o == 0 ? 0 : (int) o - 1);
+      th_out (&t->api, b);
+      fprintf (stderr, "C18-%s\n", b + 2); /* at once: the run may not survive what follows */
+      return 0;
+    }
+  }
+  return 1;
+}
+
+static int ar_unmap (void *ptr, size_t len, void *ud) {
+  struct th *t = ud;
+  if (!ar_check (t, "UNMAP", ptr, len)) return -1;
+  size_t lo = (size_t) ((uint8_t *) ptr - arena) / APAGE, np = (len + APAGE - 1) / APAGE;
+  mprotect (ptr, np * APAGE, PROT_NONE);
+  for (size_t i = 0; i < np; i++) __atomic_store_n (&arena_owner[lo + i], 0, __ATOMIC_RELAXED);
+  return 0;
+}
+
+static int ar_protect (void *ptr, size_t len, MIR_mem_protect_t prot, void *ud) {
+  struct th *t = ud;
+  ar_check (t, "PROTECT", ptr, len); /* recorded; the request is carried out as a real allocator would */
+  return mprotect (ptr, len, prot == PROT_WRITE_EXEC ? PROT_READ | PROT_WRITE | PROT_EXEC : PROT_READ | PROT_EXEC);
+}
 
 static void th_out (struct api *a, const char *line) {
   struct th *t = a->user;
@@ -66,7 +133,9 @@ int main (void) {
   char mode[16] = "par";
   FILE *nullf = fopen ("/dev/null", "w");
 
-  if (fgets (line, sizeof (line), stdin) == NULL || sscanf (line, "threads %d reps %d mode %15s", &n, &reps, mode) != 3) {
+  char amode[16] = "default";
+  if (fgets (line, sizeof (line), stdin) == NULL
+      || sscanf (line, "threads %d reps %d mode %15s alloc %15s", &n, &reps, mode, amode) < 3) {
     fprintf (stderr, "bad header\n");
     return 64;
   }
@@ -78,6 +147,12 @@ int main (void) {
     ths[i].api.id = i;
     ths[i].api.alloc = NULL; /* default allocators: plain malloc/mmap, which TSan knows */
     ths[i].api.code_alloc = NULL;
+    if (strcmp (amode, "arena") == 0) {
+      if (arena == NULL)
+        arena = mmap (NULL, ARENA_PAGES * APAGE, PROT_READ | PROT_EXEC, MAP_PRIVATE | MAP_ANONYMOUS | MAP_NORESERVE, -1, 0);
+      ths[i].code_alloc = (struct MIR_code_alloc){ar_map, ar_unmap, ar_protect, &ths[i]};
+      ths[i].api.code_alloc = &ths[i].code_alloc;
+    }
     ths[i].api.out = th_out;
     ths[i].api.user = &ths[i];
     ths[i].api.null_file = nullf;
